@@ -64,6 +64,27 @@ SLOW_UNITS = ["max([0]*1000000)", "min([1]*1000000)", "sum([0.5]*1000000)", "([0
               "float('1'*100000)", "max([0]*1000000 + [1])"]
 
 
+# every allow-listed function x extreme arguments (one uninterruptible C call each): sizes and magnitudes at and beyond every guard
+EXTREME = ["0", "1", "(-1)", "10 ** 9", "(-(10 ** 9))", "10 ** 4000", "(-(10 ** 4000))", "2 ** 16000", "1e308", "(-1e308)", "1e-320", "0.5", "True",
+           "'a' * 1000000", "[0] * 1000000", "[1.5] * 1000000", "(10 ** 8)", "(-(10 ** 8))", "[[0] * 1000] * 999", "''", "[]"]
+SMALLX = ["1", "(-(10 ** 8))", "10 ** 4000", "1e308"]
+KWARGS = {"round": ["ndigits"], "int": ["base"], "sum": ["start"], "max": ["default"], "min": ["default"], "log": ["base"]}
+
+
+def extreme_sources(names, quick):
+    out = []
+    for f in sorted(names):
+        for a in EXTREME:
+            out.append("%s(%s)" % (f, a))
+        for a in (SMALLX if quick else EXTREME):
+            for b in (SMALLX if quick else EXTREME):
+                out.append("%s(%s, %s)" % (f, a, b))
+            for kw in KWARGS.get(f, []):
+                for b in (SMALLX if quick else EXTREME):
+                    out.append("%s(%s, %s=%s)" % (f, a, kw, b))
+    return out
+
+
 def slow_sources(quick):
     out = []
     for u in (SLOW_UNITS[:2] if quick else SLOW_UNITS):
@@ -377,6 +398,11 @@ def run(tier):
     for s in slow_sources(quick):
         for pw in (None, "math"):
             add(s, "slow", pw)
+    base.use_repo()
+    import importlib
+    fnames = [k for k, v in importlib.import_module("operon_ai.organelles.mitochondria").Mitochondria.SAFE_FUNCTIONS.items() if callable(v)]
+    for s in extreme_sources(fnames, quick):
+        add(s, "bomb", None, bomb=False, safe=False, alo=0, ahi=0, hi=10 ** 9, extreme=True)
     for c in bomb:
         s = bsrc(c["ast"])
         for pw in ((None, "math", "legacy") if c["bomb"] else (None, "legacy")):
@@ -447,6 +473,8 @@ def run(tier):
                 sig = "%s table=%s name=%s" % (cname, m["table"], m["name"])
             elif m["kind"] == "forb":
                 sig = "%s construct=%s pathway=%s" % (cname, m.get("construct"), m["pathway"])
+            elif m["kind"] == "bomb" and m.get("extreme"):
+                sig = "%s extreme-arguments function=%s" % (cname, m["src"].split("(", 1)[0])
             elif m["kind"] == "bomb":
                 sig = "%s resource-family %s" % (cname, "bomb" if m.get("bomb") else "non-bomb")
             elif m["kind"] == "tool":
@@ -471,7 +499,7 @@ def run(tier):
     R.cov["exhaustive"] = False
     R.cov["rule"] = ("TLC-enumerated: 21 construct kinds outside the allowed subset (attribute access / calls, subscripts, lambdas, comprehensions, generator expressions, f-strings, unknown and denied names, "
                      "denied calls, call-of-call, starred, await / yield, walrus, slices, import tricks) x 17 positions (evaluated and short-circuited / untaken) x several concrete realisations x pathways; "
-                     "a 254-element resource family (powers, products, sequence repetition, factorials, towers) with sound size bounds + 17 hand-written bombs; seeded arbitrary strings (mutations, "
+                     "every allow-listed function on extreme arguments (1-2 positional, keyword ndigits / base / start / default), a 254-element resource family (powers, products, sequence repetition, factorials, towers) with sound size bounds + 17 hand-written bombs; seeded arbitrary strings (mutations, "
                      "over-length, deep nesting, NULs, surrogates); the allow-list tables. Every evaluation runs in a killable child with audit + profile hooks. non-trivial = forbidden-construct or resource case")
     R.assumptions += ["time is observed from outside the process: a case that has not answered after %d x timeout_seconds (= %.0f s) is a timeout" % (K, K * TIMEOUT),
                       "forbidden effects are observed through sys.addaudithook (exec / import / open / process / socket events), a profile hook (denied builtins; Python frames of code compiled from the expression)",
